@@ -113,6 +113,12 @@ CLAIMED = {
         note="Assumes POSIX rename atomicity and that NamedTemporaryFile(dir=d) creates in d. " + TRUST,
         design_ref="DESIGN.md §3 C26",
     ),
+    "C29": dict(
+        technique="static analysis: exhaustive reference resolution over the expanded grammar graph of every bundled dialect (Ref / keyword strings / bracket sets against the expanded library), loadability of every lookup entry, matchability of referenced segment classes against the lexer's token class hierarchy; lexer totality is C01's R01a",
+        text="Decides the property for the 28 bundled dialects: every dialect of the lookup imports, exposes its Dialect object, expands, has a resolving root segment and lexer matchers; every Ref, bare keyword string, delimiter, terminator, exclude and bracket reference reachable from the root resolves in the dialect's expanded library and every bracket type/set used exists; every referenced segment class can be matched (has a match grammar or its own match, or every code token class is an instance of it).",
+        note="Known findings (46, each keyed by dialect + reference + declaring class): FORMATS/POLICIES inherited from ansi by 18 dialects, postgres-family Ref('COLUMN'), mysql-family Ref('TableReference'), postgres-family EXECUTION; their repairs exist (c29_blocked_patches/) but the existing suite's parity cases expect these statements to raise. 129 other dangling references were repaired by 17 fix: commits. The grammar graph is obtained by importing the dialect modules of the analysed tree in a subprocess; no SQL is lexed or parsed. " + TRUST,
+        design_ref="DESIGN.md §3 C29, §9.1",
+    ),
     "C30": dict(
         technique="static analysis: must-guard / def-use wiring checks on merge_source_patches, the slicer and the builder (CFG dominance, sorted() provenance)",
         text="Decides the wiring that makes overlapping or repeated application impossible: a patch joins the merged list only after the duplicate test "
